@@ -218,11 +218,19 @@ def exportString (v : BMNumber) : Option (List Nat) :=
 def signedDec (v : Nat) : List Nat :=
   if v < two63 then digits 10 v else 45 :: digits 10 (two64 - v)
 
-/-- `ExportString` with the *proposed repair* of `Signed.ExportString` (repo_patches/C08-signed-export.diff):
-    `0s` followed by the signed decimal value; all other types as implemented -/
+/-- sign extension of a `bits`-wide two's complement pattern to 64 bits -/
+def sext (bits val : Nat) : Nat :=
+  if bits < 64 ∧ val < 2 ^ bits ∧ 2 ^ (bits - 1) ≤ val then val + (two64 - 2 ^ bits) else val
+
+/-- `ExportString` with the repaired `Signed.ExportString` (fix 4051846 and
+    repo_patches/C08-signed-narrow-export.diff): `0s` followed by the signed decimal value of the
+    `bits`-wide pattern; all other types as implemented -/
 def exportStringSpec (v : BMNumber) : Option (List Nat) :=
   match v.ty with
-  | .signed => if v.bytes.length = 8 then some ([48, 115] ++ signedDec (valOf v.bytes)) else none
+  | .signed =>
+    if 1 ≤ v.bytes.length ∧ v.bytes.length ≤ 8 ∧ 1 ≤ v.bits ∧ v.bits ≤ 64 then
+      some ([48, 115] ++ signedDec (sext v.bits (valOf v.bytes)))
+    else none
   | _ => exportString v
 
 /-! ### the export option `BMNumberConfig.OmitPrefix` -/
@@ -250,7 +258,11 @@ def exportStringOmit (v : BMNumber) : Option (List Nat) := (exportString v).map 
     laid out little endian in `w/8` bytes; a positive `optionalBits` overrides the width field only; zero and the
     negative 'any size' sentinel (`GetSize() = -1` of unsigned/signed/hex/bin) keep the native width -/
 def importUint (w v : Nat) (optBits : Int) : BMNumber :=
-  ⟨toBytesLE (w / 8) v, if 0 < optBits then optBits.toNat else w, .unsigned⟩
+  if 0 < optBits then
+    -- (repaired behaviour, repo_patches/C08-importuint-width.diff) the number holds exactly `optBits`
+    -- bits: bytes padded / cut to ⌈optBits/8⌉ and the unused high bits of the last byte cleared
+    ⟨toBytesLE ((optBits.toNat + 7) / 8) (v % 2 ^ optBits.toNat), optBits.toNat, .unsigned⟩
+  else ⟨toBytesLE (w / 8) v, w, .unsigned⟩
 
 /-- `ImportBytes(input, bits)`: `input` is big endian; the result is unsigned -/
 def importBytes (be : List Nat) (bits : Nat) : BMNumber := ⟨be.reverse, bits, .unsigned⟩
